@@ -288,13 +288,6 @@ Example C13_nonvacuous :
      = Some [4; 5]%nat.
 Proof. repeat split; vm_compute; reflexivity. Qed.
 
-(* UNPROVED  (what DESIGN.md section 4, C13, asks for and is NOT proved)
-
-   Equal Shares, iterated AND irresolute (mes_iter_irresolute): independence of the enumeration order and of the
-   voter order,
-     Theorem mes_iter_irresolute_presentation_indep : forall x e2 P' tb' fuel inc, ... ->
-       mes_iter_irresolute fuel x inc = Some L1 ->
-       mes_iter_irresolute fuel (with_voters (with_enum x e2) P' tb') inc = Some L2 -> forall X, In X L1 <-> In X L2.
-   (C08's characterisation of the irresolute run is stated for the plain rule's endowment only.)  Every other
-   entry point of Equal Shares is covered: resolute, irresolute, iterated resolute; scaling for all four.
-*)
+(* Independence of the enumeration order and of the voter order for the iterated AND irresolute
+   Equal Shares entry point (mes_iter_irresolute) is PROVED in Props/C13mes.v
+   (mes_iter_irresolute_presentation_indep). *)
